@@ -23,7 +23,15 @@ pub fn gen_text(rng: &mut Rng) -> String {
     // the larger the share of schedules in which one task finishes the index while another is
     // mid-call); 4 % of texts are longer (7..12 lines: long indexing loops, many switch points)
     let weights = [14u32, 24, 26, 18, 10, 8];
-    let terms = if rng.chance(1, 25) { rng.range_usize(6, 11) } else { rng.weighted(&weights) };
+    // 2 % are long (60..260 lines): an implementation may batch its indexing (say 64 lines per
+    // lock acquisition), and a workload that never exceeds the batch never leaves the first batch
+    let terms = if rng.chance(1, 50) {
+        rng.range_usize(60, 260)
+    } else if rng.chance(1, 25) {
+        rng.range_usize(6, 11)
+    } else {
+        rng.weighted(&weights)
+    };
     let mut t = String::new();
     for i in 0..=terms {
         t.push_str(*rng.pick(&PIECES[..]));
